@@ -20,7 +20,7 @@ REQUIRE = {"cdist_cells_checked": 2328, "pdist_entries_checked": 500, "asymmetri
            "long_string_pairs": 5, "functional_pdist_cases": 10, "functional_cdist_cases": 10, "kwargs_forwarded_checked": 5,
            "float_callable_cases": 5, "squareform_roundtrips": 15, "default_metric_kwargs_cases": 5}
 SHARDS = {"quick": 4, "thorough": 16}
-WEIGHTS = [(1, 1, 1), (2, 5, 3), (5, 2, 3), (1, 1, 7), (3, 1, 1), (1, 3, 2), (2, 2, 1), (1, 2, 4), (4, 1, 9), (7, 7, 7),
+WEIGHTS = [(1, 1, 1), (2, 5, 3), (5, 2, 3), (1, 1, 7), (3, 1, 1), (1, 3, 2), (2, 1, 1), (1, 2, 1), (1, 1, 2), (2, 2, 1), (1, 2, 4), (4, 1, 9), (7, 7, 7),
            (1, 9, 1), (9, 1, 1), (2, 3, 6), (3, 2, 5)]
 
 
@@ -218,7 +218,7 @@ def generate(tier, seed):
     rng = random.Random(8000 + seed)
     thorough = tier == "thorough"
     u = G.universe("AB", 4 if thorough else 3)
-    wl = WEIGHTS if thorough else WEIGHTS[:6]
+    wl = WEIGHTS if thorough else WEIGHTS[:9]
     for w in wl:
         yield "metric", {"A": u, "B": u, "w": list(w)}, True
     yield "metric", {"A": u, "B": u, "w": [1, 1, 1], "plain": True}, True
